@@ -65,7 +65,7 @@ func (s *vfSizedServer) ServerStream(_ context.Context, req *connect.Request[con
 // TestVerifC19ClientSharp: the reference client accepts a response of exactly
 // its receive limit and reports one byte more as resource_exhausted.
 func TestVerifC19ClientSharp(t *testing.T) {
-	rep := verifkit.Begin("C19", "client-sharp", "real reference client with message_receive_limit L in {64, 4096, 204800, 1048576 (the runner's own client limit)} against a crafted connect-go server answering unary and server-stream responses of exactly L-1, L, L+1 serialized bytes x {Connect, gRPC, gRPC-Web} x 6 compressions x {all-zero, incompressible}; oracle: <= L delivered, L+1 resource_exhausted; distinct = (limit, protocol, compression, padding, delta, rpc)")
+	rep := verifkit.Begin("C19", "client-sharp", "real reference client with message_receive_limit L in {64, 4096, 204800, 1048576 (the runner's own client limit)} against a crafted connect-go server answering unary and server-stream responses of exactly L-1, L, L+1 serialized bytes x {Connect, gRPC, gRPC-Web} x 6 compressions x {all-zero, incompressible}; plus long server streams (17/24 responses of 1 MiB, 300 of 4 KiB, 90 of 200 KiB; last at L or L+1); oracle: <= L delivered, L+1 resource_exhausted, per message; distinct = (limit, protocol, compression, padding, delta, rpc)")
 	defer rep.Write()
 	mux := http.NewServeMux()
 	mux.Handle(conformancev1connect.NewConformanceServiceHandler(&vfSizedServer{},
@@ -170,7 +170,65 @@ func TestVerifC19ClientSharp(t *testing.T) {
 			}
 		}
 	}
+	// the limit is per response message, not a budget for the response body: long server streams of responses that are
+	// each within the limit are delivered in full; with a last response one byte over, all but the last are delivered
+	for _, pr := range []conformancev1.Protocol{1, 2, 3} {
+		for _, shape := range []struct{ L, count int }{{1 << 20, 17}, {1 << 20, 24}, {4096, 300}, {200 * 1024, 90}} {
+			for _, lastDelta := range []int{0, 1} {
+				if !verifkit.Thorough() && (shape.count == 24 || shape.L == 200*1024) {
+					continue
+				}
+				mk := func(b []byte) proto.Message {
+					return &conformancev1.ServerStreamResponse{Payload: &conformancev1.ConformancePayload{Data: b}}
+				}
+				d, dLast := vfDataForResponseSize(shape.L, false, mk), vfDataForResponseSize(shape.L+lastDelta, false, mk)
+				if d == nil || dLast == nil {
+					rep.Count("unreachable_size", 1)
+					continue
+				}
+				rep.Eval(1)
+				rep.DistinctKey(shape.L, pr, shape.count, lastDelta, "long-stream")
+				name := fmt.Sprintf("ClientSharp/%d/%v/long-stream/%d/%+d", shape.L, pr, shape.count, lastDelta)
+				data := make([][]byte, shape.count)
+				for i := range data {
+					data[i] = d
+				}
+				data[shape.count-1] = dLast
+				m, _ := anypb.New(&conformancev1.ServerStreamRequest{ResponseDefinition: &conformancev1.StreamResponseDefinition{ResponseData: data}})
+				req := &conformancev1.ClientCompatRequest{TestName: name, HttpVersion: conformancev1.HTTPVersion_HTTP_VERSION_2, Protocol: pr, Codec: conformancev1.Codec_CODEC_PROTO, Compression: conformancev1.Compression_COMPRESSION_IDENTITY,
+					Host: host, Port: port, Service: proto.String("connectrpc.conformance.v1.ConformanceService"), MessageReceiveLimit: uint32(shape.L),
+					RequestHeaders: []*conformancev1.Header{{Name: "x-test-case-name", Value: []string{name}}},
+					StreamType:     conformancev1.StreamType_STREAM_TYPE_SERVER_STREAM, Method: proto.String("ServerStream"), RequestMessages: []*anypb.Any{m}}
+				resp, err := cl.Do(req)
+				w := map[string]any{"limit": shape.L, "protocol": pr.String(), "responses": shape.count, "last_response_delta": lastDelta, "total_bytes": shape.count * shape.L}
+				if err != nil {
+					rep.Inconcl(fmt.Sprintf("%s: %v", name, err))
+					continue
+				}
+				if resp.GetError() != nil {
+					rep.Violation("sharp/client/client-error", "reference client reported an internal error: "+resp.GetError().Message, w)
+					continue
+				}
+				res := resp.GetResponse()
+				verdict := "accepted"
+				if res.GetError() != nil {
+					verdict = connect.Code(res.GetError().Code).String()
+					w["error"] = verifkit.Trunc(res.GetError().GetMessage(), 200)
+				}
+				w["verdict"], w["payloads_delivered"] = verdict, len(res.GetPayloads())
+				switch {
+				case lastDelta == 0 && (verdict != "accepted" || len(res.GetPayloads()) != shape.count):
+					rep.Violation("sharp/client/long-stream/within-limit-"+verdict, fmt.Sprintf("%d responses of %d bytes each (limit %d per message): %s after %d payloads, want all accepted", shape.count, shape.L, shape.L, verdict, len(res.GetPayloads())), w)
+				case lastDelta > 0 && (verdict != "resource_exhausted" || len(res.GetPayloads()) != shape.count-1):
+					rep.Violation("sharp/client/long-stream/last-over-limit-"+verdict, fmt.Sprintf("%d responses, only the last over the limit: %s after %d payloads, want resource_exhausted after %d", shape.count, verdict, len(res.GetPayloads()), shape.count-1), w)
+				default:
+					rep.Count("long_streams_ok", 1)
+				}
+			}
+		}
+	}
 	rep.Sample(map[string]any{"limit": 64, "protocol": "PROTOCOL_GRPC_WEB", "compression": "COMPRESSION_SNAPPY", "size": 65, "expect": "resource_exhausted"})
 	rep.RequireMin("over_limit_cases", 100)
 	rep.RequireMin("within_limit_accepted", 150)
+	rep.RequireMin("long_streams_ok", 9)
 }
